@@ -2,6 +2,7 @@ import Verif.Props.C07
 import Verif.Props.C06
 import Verif.Props.C05
 import Verif.Props.C18
+import Verif.Props.C08
 import Verif.Proofs.C09Json
 /-!
 # C09 — accepted input yields syntactically valid output that is accepted again
@@ -52,5 +53,35 @@ theorem svg_path_output_parses : type_of% @Verif.Props.C05.shorten_output_parses
 
 /-- **SVG path printer**: any well-formed group list lexes back to exactly its tokens -/
 theorem svg_path_lex_roundtrip : type_of% @Verif.Props.C05.path_lex_roundtrip := @Verif.Props.C05.path_lex_roundtrip
+
+/-! ## the leaf languages: numbers, data URLs, media types -/
+
+/-- **Numbers** (`minify.Number`, used by CSS, SVG, JS, JSON): for every lexeme of the number grammar and all precisions the
+    result is a lexeme of the same grammar — so the second application (with any precision) is defined on it and again
+    yields a number (corollary of C08 `number_grammar`) -/
+theorem number_output_reaccepted (s : List Char) (p q : Int) (hs : Verif.Spec.Num.isNumber s = true) :
+    Verif.Spec.Num.isNumber (Verif.Model.Num.number s p) = true ∧
+    Verif.Spec.Num.isNumber (Verif.Model.Num.number (Verif.Model.Num.number s p) q) = true :=
+  ⟨Verif.Props.C08.number_grammar s p hs,
+   Verif.Props.C08.number_grammar _ q (Verif.Props.C08.number_grammar s p hs)⟩
+
+/-- **Decimals** (`minify.Decimal`): the exponent-free number grammar is mapped into itself, twice -/
+theorem decimal_output_reaccepted (s : List Char) (p q : Int) (hs : Verif.Spec.Num.isDecimal s = true) :
+    Verif.Spec.Num.isDecimal (Verif.Model.Num.decimal s p) = true ∧
+    Verif.Spec.Num.isDecimal (Verif.Model.Num.decimal (Verif.Model.Num.decimal s p) q) = true :=
+  ⟨Verif.Props.C08.decimal_grammar s p hs,
+   Verif.Props.C08.decimal_grammar _ q (Verif.Props.C08.decimal_grammar s p hs)⟩
+
+example : Verif.Spec.Num.isNumber "+012.500e-3".toList = true ∧ Verif.Spec.Num.isDecimal "-0.50".toList = true := by decide
+
+/-- **Data URLs** (`minify.DataURI`, used for `url(data:…)` in CSS and URL attributes in HTML): outside the three syntactic
+    triggers of the open C18 findings, the result is the input or a data URL that the RFC 2397 reader parses to an equivalent
+    media type and exactly the payload the sub-minifier produced (re-export of C18 `dataURI_holds_partial`) -/
+theorem datauri_output_parses_partial : type_of% @Verif.Props.C18.dataURI_holds_partial :=
+  @Verif.Props.C18.dataURI_holds_partial
+
+/-- **Media types** (`minify.Mediatype`): the result is the input with white space outside quoted strings deleted and letters
+    outside quoted strings lower-cased; quoted strings are copied, so a closed quoted string stays closed -/
+theorem mediatype_output_spec : type_of% @Verif.Props.C18.mediatype_spec := @Verif.Props.C18.mediatype_spec
 
 end Verif.Props.C09
